@@ -260,7 +260,7 @@ class World:
             _orig(state_machine, execution_arn, update_type, details)
             after = len(eng.execution_history.get(execution_arn, [])) if execution_arn in eng.execution_history else 0
             if after > before:
-                world.trace.append(("hist", _iid, execution_arn, update_type, details.get("name")))
+                world.trace.append(("hist", _iid, execution_arn, update_type, details.get("name"), details.get("index")))
         eng.update_execution_history = logged
         disp.start()      # real wiring: declares queues, consumers, producers; sets the heartbeat timer
         return self.instances[iid]
